@@ -965,13 +965,13 @@ class SymWalker:
         return self.leaf(t, "truthy(%s)" % norm(t))
 
     # ------------------------------------------------------------------ walk
-    def run(self, body=None):
+    def run(self, body=None, init_env=None):
         body = body if body is not None else self.node.body
         for b_ in (body if isinstance(body, list) else [body]):
             for n_ in ast.walk(b_):
                 if isinstance(n_, ast.Call) and getattr(n_, "_tag", None) is not None:
                     n_._tag = None          # left by an earlier walk of the same source
-        out = self.block(body, [State({}, True)])
+        out = self.block(body, [State(dict(init_env or {}), True)])
         self.final = out
         r = f_or(*[s.reach for s in out]) if out else False
         if r is not False:
@@ -1258,7 +1258,9 @@ class SymWalker:
                 self._pretag(v)
                 if v is not None:
                     self._calls(v, st, s.reach)
-                self.exits.append(Exit("return" if isinstance(st, ast.Return) else "raise", getattr(st, "_orig", st), s.reach, self.sub(v) if v is not None else None))
+                ex_ = Exit("return" if isinstance(st, ast.Return) else "raise", getattr(st, "_orig", st), s.reach, self.sub(v) if v is not None else None)
+                ex_.env = dict(s.env)
+                self.exits.append(ex_)
             return []
         if isinstance(st, ast.Assert) and self.ignore_asserts:
             return states
@@ -2308,12 +2310,45 @@ def _split_loop_targets(func_node):
     return new
 
 
-def summarize(func_node, canon, leaf=None, keep=()):
+def closure_env(outer_node, canon, inner_name):
+    """what the free variables of the closure `inner_name` hold when `outer_node` hands it out: for every local of the
+    outer function, the one symbolic value it has at every exit that returns (or registers) the closure"""
+    if not isinstance(outer_node, (ast.FunctionDef, ast.AsyncFunctionDef)):
+        return {}
+    try:
+        w = SymWalker(outer_node, canon, None, keep=mutated_locals(outer_node), ignore_asserts=True)
+        w.run()
+    except Exception:
+        return {}
+    envs = [getattr(e, "env", None) for e in w.exits if e.kind == "return"] + [st.env for st in w.final]
+    envs = [e for e in envs if e is not None]
+    if not envs:
+        return {}
+    params = {a.arg for a in outer_node.args.args + outer_node.args.posonlyargs + outer_node.args.kwonlyargs}
+    out = {}
+    for name in set.intersection(*[set(e) for e in envs]):
+        if name.startswith("\0"):
+            continue
+        vals = {norm(e[name]) for e in envs}
+        if len(vals) == 1:
+            v = envs[0][name]
+            if isinstance(v, ast.Name) and v.id == inner_name:
+                continue
+            # the value is written in terms of the OUTER function's inputs; mark parameters of the outer function so that
+            # they cannot be confused with names of the closure
+            out[name] = v
+    return out
+
+
+def summarize(func_node, canon, leaf=None, keep=(), init_env=None):
     func_node = _split_loop_targets(func_node)
     params = {a.arg for a in func_node.args.args + func_node.args.posonlyargs + func_node.args.kwonlyargs}
     keep = set(keep) | (mutated_locals(func_node) - params)
+    if init_env:
+        own = params | {n.id for n in ast.walk(func_node) if isinstance(n, ast.Name) and isinstance(n.ctx, (ast.Store, ast.Del))}
+        init_env = {k: v for k, v in init_env.items() if k not in own}
     w = SymWalker(func_node, canon, leaf, keep=keep, ignore_asserts=True)     # assertions are not behaviour a property may rest on (python -O removes them)
-    w.run()
+    w.run(init_env=init_env)
     raw = []     # (kind, [parts], cond formula)
     loops = sorted([n for n in ast.walk(func_node) if isinstance(n, (ast.For, ast.While)) and id(n) in w.loop_out and w.converted.get(id(n), 0) <= 0],
                    key=lambda n: (w.loop_seq.get(id(n), 10 ** 6), n.lineno, n.col_offset))
@@ -2966,8 +3001,9 @@ def reference_status(ctx, fi, ref_source, ref_names, int_names=None, leaf=None, 
     ref_funcs = {n.name: n for n in tree.body if isinstance(n, ast.FunctionDef)}
     ref_called = set()
     for nm in ref_names:
-        if nm in ref_funcs:
-            ref_called |= {c.func.id for c in ast.walk(ref_funcs[nm]) if isinstance(c, ast.Call) and isinstance(c.func, ast.Name)}
+        for nm2 in (nm, nm.rsplit("__", 1)[0] if "__" in nm else nm):       # a closure also sees what its outer function calls
+            if nm2 in ref_funcs:
+                ref_called |= {c.func.id for c in ast.walk(ref_funcs[nm2]) if isinstance(c, ast.Call) and isinstance(c.func, ast.Name)}
     base_inl = make_inliner(ctx, fi)
     # helpers the reference calls by name without defining them stay calls on both sides
     code_inl = (lambda c: base_inl(c) if (c.func.id in ref_funcs or c.func.id not in ref_called) else None) if inline else None
@@ -2990,7 +3026,11 @@ def reference_status(ctx, fi, ref_source, ref_names, int_names=None, leaf=None, 
     canon_code.callee_of = canon_ref.callee_of = make_callee_resolver(ctx, fi)
     canon_code.lambda_of = make_lambda_resolver(ctx, fi)
     canon_code.assign_of = make_assign_resolver(ctx, fi)
-    s_code = summarize(expanded(ctx, fi), canon_code, leaf, keep)
+    env_code = None
+    if getattr(fi, "parent", None) is not None and isinstance(fi.node, ast.FunctionDef):
+        env_code = closure_env(expanded(ctx, fi.parent), canon_code, fi.node.name)
+    s_code_plain = None
+    s_code_env = None
     best = None
     for ref_name in ref_names:
         ref_node = None
@@ -2999,7 +3039,22 @@ def reference_status(ctx, fi, ref_source, ref_names, int_names=None, leaf=None, 
                 ref_node = n
         if ref_node is None:
             raise AnalysisError("reference %s missing" % ref_name)
-        s_ref = summarize(ref_node, canon_ref, leaf, keep)
+        env_ref = None
+        if env_code is not None and "__" in ref_name:
+            # the module transcriptions name nested functions q__outer__inner: the outer transcription says what the
+            # free variables of the inner one hold (hand-written references have no outer function: compared as written)
+            outer_ref = ref_funcs.get(ref_name.rsplit("__", 1)[0])
+            if outer_ref is not None:
+                env_ref = closure_env(outer_ref, canon_ref, fi.node.name)
+        if env_ref is not None:
+            if s_code_env is None:
+                s_code_env = summarize(expanded(ctx, fi), canon_code, leaf, keep, init_env=env_code)
+            s_code = s_code_env
+        else:
+            if s_code_plain is None:
+                s_code_plain = summarize(expanded(ctx, fi), canon_code, leaf, keep)
+            s_code = s_code_plain
+        s_ref = summarize(ref_node, canon_ref, leaf, keep, init_env=env_ref)
         status, details = compare_summaries(s_code, s_ref)
         rank = {"same": 0, "differs": 1, "near": 2, "unrecognised": 3}[status]
         if best is None or (rank, len(details)) < best[0]:
